@@ -12,6 +12,7 @@ import PyIkev2.Model.KeysCmd
 import PyIkev2.Model.NetlinkCmd
 import PyIkev2.Model.MachineCmd
 import PyIkev2.Model.ConfigCmd
+import PyIkev2.Model.HandlersCmd
 
 open PyIkev2 PyIkev2.Impl
 
@@ -53,7 +54,7 @@ def step (line : String) : String :=
   match (line.trimAscii.toString.splitOn " ").filter (· ≠ "") with
   | [] => "bad-op"
   | cmd :: args =>
-    match ((((((codecCmd cmd args).orElse (fun _ => NegotiateCmd.cmd cmd args)).orElse (fun _ => SelectorsCmd.cmd cmd args)).orElse (fun _ => KeysCmd.cmd cmd args)).orElse (fun _ => NetlinkCmd.cmd cmd args)).orElse (fun _ => MachineCmd.cmd cmd args)).orElse (fun _ => ConfigCmd.cmd cmd args) with
+    match (((((((codecCmd cmd args).orElse (fun _ => NegotiateCmd.cmd cmd args)).orElse (fun _ => SelectorsCmd.cmd cmd args)).orElse (fun _ => KeysCmd.cmd cmd args)).orElse (fun _ => NetlinkCmd.cmd cmd args)).orElse (fun _ => MachineCmd.cmd cmd args)).orElse (fun _ => ConfigCmd.cmd cmd args)).orElse (fun _ => HandlersCmd.cmd cmd args) with
     | some out => out
     | none => "bad-op"
 
